@@ -412,8 +412,8 @@ func runBFS(p *eng.Solo, def *checkDef) {
 			var i2 []int
 			for k, st := range frontier {
 				if Seeds[st.seed].Tier == 2 {
-					// generated board-tree seeds: full menu at depth 1, mini menu from mini-reached states at depth 2
-					if d == 2 && st.mini {
+					// generated board-tree seeds: full menu at depth 1; trees of two boards also mini menu from mini-reached states at depth 2
+					if d == 2 && st.mini && Seeds[st.seed].Deep {
 						f2 = append(f2, st)
 						i2 = append(i2, frontierIdx[k])
 					}
@@ -522,7 +522,7 @@ func runBFS(p *eng.Solo, def *checkDef) {
 						nextI = append(nextI, len(all)-1)
 					}
 				}
-				if t := transitions; (t&(t-1)) == 0 && t >= 64 && len(samples) < 12 {
+				if t := nontrivial; r.NT && (t&(t-1)) == 0 && len(samples) < 16 {
 					samples = append(samples, map[string]any{"seed": Seeds[st.seed].Name, "history": append(history(all, frontierIdx[k]), *r.Op), "succeeded": r.Ok, "outcome": r.Out})
 				}
 			}
@@ -593,7 +593,7 @@ func register(def *checkDef) {
 	}
 	eng.Register(&eng.Check{
 		ID: def.ID, Level: "model_checking", Rule: def.Rule, Assumptions: def.Assume,
-		QuickBudget: 100 * time.Second, ThoroughBudget: 24 * time.Minute,
+		QuickBudget: 200 * time.Second, ThoroughBudget: 24 * time.Minute,
 		Oracles: ors,
 		Solo:    func(p *eng.Solo) { runBFS(p, def) },
 	})
